@@ -65,6 +65,29 @@ def pattern_of(spelling, backend=None):
     return re.sub(r"\d+", "N", s)
 
 
+_PLAIN = re.compile(r"^[A-Za-z_][A-Za-z0-9_]*$")
+
+
+def issued_unchanged(backend, name, tables):
+    """would the namer of `backend` issue the label `name` as `name` itself (first use)?  (cf. Namer.first_form:
+    sanitize is the identity, the base does not end in a digit and is not a table word)"""
+    if not _PLAIN.match(name) or "__" in name or name.endswith("_") or name[-1].isdigit():
+        return False
+    if name in tables["_set_" + backend]:
+        return False
+    if backend == "hlsl" and name.lower() in tables["_set_hlsl_ci"]:
+        return False
+    return True
+
+
+def prepare_tables(tables):
+    tables["_set_hlsl"] = set(tables["hlsl_keywords"])
+    tables["_set_hlsl_ci"] = set(w.lower() for w in tables["hlsl_ci_keywords"])
+    tables["_set_msl"] = set(tables["msl_keywords"])
+    tables["_set_glsl"] = set(tables["glsl_keywords"])
+    return tables
+
+
 class Reporter:
     """one ctx.violation per stable key (first witness)"""
     def __init__(self, ctx):
@@ -534,6 +557,7 @@ def run(ctx):
         ctx.cov["coq_log_tail"] = log[-1500:]
     rep = Reporter(ctx)
     tables = namercorr.load_tables()
+    prepare_tables(tables)
     spec = P.prepare_spec(P.load_spec(vcheck.COQ))
     ncmp = 0
     if ok:
